@@ -30,6 +30,25 @@ def enabled_ops(order, lay, ops):
         out.append(("uspace",))
     if "grade" in ops:
         out.append(("grade", lay.sigma))
+    if "dorfler" in ops:
+        import itertools
+        L = list(S)
+        # anisotropic: all pairs of marked sets with |Mt| + |Ms| <= 3 (as in STMesh.Next)
+        for nt in range(0, 4):
+            for ns in range(0, 4 - nt):
+                if nt + ns == 0:
+                    continue
+                for Mt in itertools.combinations(L, nt):
+                    if any(k[4] >= lay.maxl for k in Mt):
+                        continue
+                    for Ms in itertools.combinations(L, ns):
+                        if any(k[5] >= lay.maxl for k in Ms):
+                            continue
+                        out.append(("mark_aniso", Mt, Ms))
+        for n in (1, 2):
+            for M in itertools.combinations(L, n):
+                if all(k[4] < lay.maxl and k[5] < lay.maxl for k in M):
+                    out.append(("mark_iso", M))
     return out
 
 
